@@ -363,6 +363,10 @@ func (tc *TC) OnFrame(sess int, f *Frame) {
 			case GSBegin:
 				g.Status = GSCommitting
 				resp.GlobalStatus = GSCommitted
+				// like the Seata server (closeAndClean): the global locks of a
+				// committing transaction are released at the commit decision, phase
+				// two (undo-log deletion) runs asynchronously afterwards
+				tc.releaseLocks(g.Xid)
 				if tc.AutoP2 {
 					tc.drivePhaseTwo(g, true, nil)
 				} else {
@@ -429,7 +433,31 @@ func (tc *TC) OnFrame(sess int, f *Frame) {
 			tc.reply(sess, f, resp, extra)
 			g.Status = GSRollbacking
 			g.Requests = append(g.Requests, "timeout-rollback")
-			tc.drivePhaseTwo(g, false, nil)
+			// rule message "x2" / "x3": the rollback is delivered that many times
+			// in a row (each after the previous answer), as a coordinator does
+			// whose view of the answers got lost
+			extraDeliveries := 0
+			if r != nil && strings.HasPrefix(r.Msg, "x") {
+				fmt.Sscanf(r.Msg, "x%d", &extraDeliveries)
+				extraDeliveries--
+			}
+			var again func(ok bool)
+			again = func(ok bool) {
+				if extraDeliveries <= 0 {
+					return
+				}
+				extraDeliveries--
+				for i := len(g.Branches) - 1; i >= 0; i-- {
+					b := g.Branches[i]
+					last := i == 0
+					tc.SendBranchEnd(b, false, b.AppData, -1, func(status byte, answered bool) {
+						if last {
+							again(true)
+						}
+					})
+				}
+			}
+			tc.drivePhaseTwo(g, false, again)
 			return
 		}
 	case TBranchReport:
